@@ -206,7 +206,8 @@ def _random_file_job(job):
     rnd = random.Random(seed * 1000003 + idx)
     n = len(sc.NOP[isa])
     full = "B" + "".join(str(i) for i in range(1, n + 1))
-    pool = ["i"] * 8 + ["c", "l", "d", "v", "r", "S", "E", "B0", "B" + "".join(str(i) for i in range(1, n))]
+    pool = ["i"] * 8 + ["c", "l", "d", "v", "r", "v", "r", "S", "E", "B0", "B" + "".join(str(i) for i in range(1, n)), full,
+                                                                     full]
     style = rnd.choice(["one", "sep", "split", "cmt", "mixed", "none", "one", "cmt"])
 
     def seq(k):
@@ -425,6 +426,7 @@ def _job(j):
 
 
 def main(tier, seed):
+    _PER_SIG.clear()
     run = Run("C11", tier, seed)
     rnd = random.Random(seed)
     quick = tier == "quick"
@@ -486,14 +488,14 @@ def main(tier, seed):
             try:
                 obs = get_line_range(arg)
             except Exception as e:
-                run.fail("C11:exception:get_line_range", "%s on %r" % (e, arg), case)
+                _fail(run, "C11:exception:get_line_range", "%s on %r" % (e, arg), case)
                 continue
             case["observed"] = list(obs)
             if sorted(set(obs)) != exp:
                 diff = sorted(set(obs) ^ set(exp))
                 where = "ends" if all(any(d in (it["a"] + off, it["b"] + off, it["a"] + off - 1, it["b"] + off + 1)
                                           for it in rec["items"]) for d in diff) else "inner"
-                run.fail("C11:lines:get_line_range:%s:%s" % (
+                _fail(run, "C11:lines:get_line_range:%s:%s" % (
                     "missing" if set(exp) - set(obs) else "extra", where),
                     "--lines %r names %s, get_line_range gives %s" % (arg, exp, sorted(set(obs))), case)
             if any(it["sep"] for it in rec["items"]):
@@ -540,7 +542,7 @@ def main(tier, seed):
         if kind == "scan":
             n_replayed += res["n"]
             for sig, what, case in res["fails"]:
-                run.fail(sig, what, case)
+                _fail(run, sig, what, case)
             for d in res["div"]:
                 run.divergence("levelB-scan", {k: d[k] for k in ("isa", "style", "codes", "observed")})
             n_div += res["ndiv"]
@@ -554,15 +556,15 @@ def main(tier, seed):
             if "error" in res:
                 if res["error"].startswith("classifier"):
                     raise RuntimeError("%s: %s" % (res["id"], res["error"]))
-                run.fail("C11:exception:reduce_to_section:%s:%s" % (res["isa"], res["style"]), res["error"], res)
+                _fail(run, "C11:exception:reduce_to_section:%s:%s" % (res["isa"], res["style"]), res["error"], res)
             else:
                 cases.append(res)
         elif kind == "lines":
             if "error" in res:
-                run.fail("C11:exception:inspect-lines:%s" % res["where"], "%s (--lines %s)" % (res["error"], res["arg"]), res)
+                _fail(run, "C11:exception:inspect-lines:%s" % res["where"], "%s (--lines %s)" % (res["error"], res["arg"]), res)
             else:
                 if res["obs"] != res["obs_text"]:
-                    run.fail("C11:lines:text-vs-dict", "report rows %s, dict lines %s" % (res["obs_text"], res["obs"]), res)
+                    _fail(run, "C11:lines:text-vs-dict", "report rows %s, dict lines %s" % (res["obs_text"], res["obs"]), res)
                 cases.append(res)
         elif kind == "equal":
             if res.get("skip"):
@@ -572,7 +574,7 @@ def main(tier, seed):
                 run.extra["equal_skip_reasons"][why] = run.extra["equal_skip_reasons"].get(why, 0) + 1
                 continue
             for name, err in res.get("errors", {}).items():
-                run.fail("C11:exception:variant:%s:%s" % (name, err["where"]),
+                _fail(run, "C11:exception:variant:%s:%s" % (name, err["where"]),
                          "%s on %s: variant %s fails with %s although the %s analysis succeeds" % (
                              res["arch"], res["rel"], name, err["error"], res["mode"]), _slim(res))
             if "scan" in res:
@@ -596,7 +598,40 @@ def main(tier, seed):
             tcases.append({"id": c["id"], "kind": "equal", "vs": [
                 {k: v[k] for k in ("name", "instrs", "rows", "lat", "flags", "cpcell", "lcdcell", "sum", "tsum", "cp",
                                    "lcd", "lcds", "marks", "noninstr_clean")} for v in c["vs"]]})
+    # self-test of the binding: corrupted copies of accepted observations must be rejected
+    import copy
+
+    selftest = {}
+    for t in tcases:
+        if t["kind"] == "scan" and t["id"].startswith("shipped|") and len(t["obs"]) > 2 and "scan" not in selftest:
+            u = copy.deepcopy(t)
+            u["id"], u["obs"] = "selftest|scan", t["obs"][1:]
+            selftest["scan"] = (u, "kernel")
+        if t["kind"] == "lines" and len(t["obs"]) > 1 and "lines" not in selftest:
+            u = copy.deepcopy(t)
+            u["id"], u["obs"] = "selftest|lines", t["obs"][:-1]
+            selftest["lines"] = (u, "lines")
+        if t["kind"] == "equal" and len(t["vs"]) > 1 and t["vs"][1]["rows"] and "equal" not in selftest:
+            u = copy.deepcopy(t)
+            u["id"] = "selftest|equal"
+            u["vs"][1]["rows"][0][0] += 1
+            selftest["equal"] = (u, "rows")
+    tcases += [u for u, _ in selftest.values()]
+    # short ids: TLC wraps long printed values
+    short = {}
+    for i, t in enumerate(tcases):
+        short["t%d" % i] = t["id"]
+        t["id"] = "t%d" % i
     rejects, r = tlc.batch_validate("Trace_Select", "Trace_Select", tcases, tag="c11", timeout=1500)
+    rejects = [(short[cid], clause, extra) for cid, clause, extra in rejects]
+    seen = {cid: clause for cid, clause, _ in rejects}
+    for k, (u, want) in selftest.items():
+        if seen.get("selftest|" + k) is None:  # (the clause may differ when the original is itself rejected)
+            raise RuntimeError("binding self-test failed: corrupted %s case was not rejected (expected clause %r)" % (
+                k, want))
+    rejects = [x for x in rejects if not x[0].startswith("selftest|")]
+    tcases = tcases[:len(tcases) - len(selftest)]
+    run.note("binding_selftest", sorted(selftest))
     run.add_mc(r, "Trace_Select")
     run.add_traces(len(tcases))
     counts = {}
@@ -609,7 +644,7 @@ def main(tier, seed):
             if clause == "levelB":
                 run.divergence("levelB-scan", {"id": cid, "obs": c["obs"]})
                 continue
-            run.fail("C11:scan:%s:%s:%s" % (c["isa"], c.get("style", "?"), cid.split("|")[0]),
+            _fail(run, "C11:scan:%s:%s:%s" % (c["isa"], c.get("style", "?"), cid.split("|")[0]),
                      "%s: the code selected line positions %s, which is not a kernel the statement permits" % (
                          cid, c["obs"] if len(c["obs"]) < 40 else (c["obs"][0], "..", c["obs"][-1])), _slim(c))
         elif c["kind"] == "lines":
@@ -617,11 +652,11 @@ def main(tier, seed):
             for it in c["items"]:
                 named |= set(range(it["a"], it["b"] + 1))
             exp = sorted(named & set(c["present"]))
-            run.fail("C11:lines:inspect:%s" % ("missing" if set(exp) - set(c["obs"]) else "extra"),
+            _fail(run, "C11:lines:inspect:%s" % ("missing" if set(exp) - set(c["obs"]) else "extra"),
                      "--lines %s analysed lines %s, named (and present) %s" % (c["arg"], c["obs"], exp), c)
         else:
             var = extra[0] if extra else "?"
-            run.fail("C11:equal:%s:%s:%s" % (c["mode"], var, clause),
+            _fail(run, "C11:equal:%s:%s:%s" % (c["mode"], var, clause),
                      "%s on %s (%s): variant %r differs from %r in field %r (noise %s)" % (
                          c["arch"], c["rel"], "fixed" if c["fixed"] else "optimal", var, c["vs"][0]["name"], clause,
                          c.get("noise")), _slim(c))
@@ -668,6 +703,20 @@ def _body(rec):
     n = 3 if rec["isa"] == "x86" else 4
     sm = {"one": 2, "sep": 1 + n, "split": 3, "cmt": 1, "mixed": 2, "startonly": 2}.get(rec["style"], 0)
     return f[rec["np"] + sm: rec["np"] + sm + rec["nb"]]
+
+
+_PER_SIG = {}
+
+
+def _fail(run, sig, what, case, cap=3):
+    """run.fail with at most `cap` replay files per signature, so that the replay slots of one run
+    show different failure classes (further occurrences are only counted)."""
+    _PER_SIG[sig] = _PER_SIG.get(sig, 0) + 1
+    if _PER_SIG[sig] > cap and run._match_known(sig) is None:
+        run.extra.setdefault("further_occurrences", {})
+        run.extra["further_occurrences"][sig] = run.extra["further_occurrences"].get(sig, 0) + 1
+        return "violation"
+    return run.fail(sig, what, case)
 
 
 def _slim(c):
@@ -727,5 +776,20 @@ def replay(path):
                     print("variant %s differs in %s:\n  %s\n  %s" % (v["name"], fld, g["vs"][0][fld], v[fld]))
                     bad = 1
         return 1 if (bad or g.get("errors")) else 0
+    if kind == "scan" and (c.get("text") is not None or c.get("rel")):
+        from osaca.parser import ParserAArch64, ParserX86ATT
+        from osaca.semantics.marker_utils import reduce_to_section
+
+        text = c["text"] if c.get("text") is not None else sc.read_kernel(c["rel"])
+        cl = sc.classify(text, c["isa"])
+        p = ParserX86ATT() if c["isa"] == "x86" else ParserAArch64()
+        parsed = p.parse_file(text)
+        pos = {no: i + 1 for i, (no, _) in enumerate(cl)}
+        obs = [pos[x.line_number] for x in reduce_to_section(parsed, c["isa"])]
+        rejects, _ = tlc.batch_validate("Trace_Select", "Trace_Select", [
+            {"id": "t0", "kind": "scan", "isa": c["isa"], "f": [r for _, r in cl], "obs": obs}], tag="c11-replay")
+        bad = [cl_ for _, cl_, _ in rejects if cl_ != "levelB"]
+        print("kernel positions now:", obs if len(obs) < 40 else (obs[0], "..", obs[-1]), "rejected:", bad)
+        return 1 if bad else 0
     print(json.dumps(c, indent=1)[:4000])
     return 0
